@@ -17,9 +17,10 @@ from .store import Row
 import aw_datastore.storages.sqlite as SQ
 
 PROP = "C06"
-EVENT_WRITES = ["insert_one", "insert_many_new", "insert_many_upsert", "replace", "replace_last", "delete_live", "delete_missing"]
+EVENT_WRITES = ["insert_one", "insert_many_new", "insert_many_upsert", "insert_many_upsert_only", "replace", "replace_last", "delete_live", "delete_missing"]
 EVENT_READS = ["get", "get_by_id", "get_eventcount"]
 BUCKET_OPS = ["create_bucket", "update_bucket", "delete_bucket"]
+FAILING_BUCKET_OPS = ["delete_missing_bucket", "create_duplicate_bucket", "update_missing_bucket"]
 LIMIT = 50  # documented batch size
 AGE_S = 10
 
@@ -55,7 +56,7 @@ def h_step(x, op, lazy=True, na=2):
     if not lazy:
         x.assume(And(w0 == 0, n0 == 0))  # eager mode: nothing is ever left buffered
     c = x.zint("c_ms", 0, ST.T_MAX_MS)  # instant of the last flush
-    d1 = x.zint("delta1_us", 0, 10**9)  # time from the last flush to this call's first clock reading
+    d1 = x.zint("delta1_us", 0, 40 * 86400 * 10**6)  # time from the last flush to this call's first clock reading (up to 40 days)
     d2 = x.zint("delta2_us", 0, 10**9)  # further (non-decreasing) readings
     now1, now2 = c * 1000 + d1, c * 1000 + d1 + d2
     clock = ST.Clock(fixed=[x.dt_us(now1), x.dt_us(now2), x.dt_us(now2), x.dt_us(now2), x.dt_us(now2)])
@@ -86,6 +87,18 @@ def h_step(x, op, lazy=True, na=2):
             b.insert([ST.event_of_row(x, new[0]), ST.event_of_row(x, new[1])])
         elif op == "insert_many_upsert":
             b.insert([C.mk_event(x, new[0].start, new[0].dur, {"tag": x.wrap(new[0].tag)}, id=x.wrap(A[0].id), aligned=False), ST.event_of_row(x, new[1])])
+        elif op == "insert_many_upsert_only":
+            b.insert([C.mk_event(x, new[0].start, new[0].dur, {"tag": x.wrap(new[0].tag)}, id=x.wrap(A[0].id), aligned=False)])
+        elif op in FAILING_BUCKET_OPS:
+            try:
+                if op == "delete_missing_bucket":
+                    ds.delete_bucket("ghost")
+                elif op == "create_duplicate_bucket":
+                    ds.create_bucket("A", "t", "c", "h", created=ST.T0)
+                else:
+                    ds.update_bucket("ghost", name="n")
+            except Exception as e:  # noqa
+                failed = type(e).__name__
         elif op == "replace":
             b.replace(x.wrap(A[0].id), ST.event_of_row(x, new[0]))
         elif op == "replace_last":
@@ -123,7 +136,15 @@ def h_step(x, op, lazy=True, na=2):
             split = False
         obl = []
         obs = [op, n1]
-        if op in BUCKET_OPS:
+        if op in FAILING_BUCKET_OPS:
+            # a rejected bucket operation must not throw away event writes that were buffered before it
+            if x.sym:
+                lost = sum(1 for r in conn.rollbacks if not (isinstance(r, int) and r == 0))
+                obl.append(("rejected-bucket-operation-keeps-buffered-writes", Or(w0 == 0, lost == 0) if lost else True))
+            else:
+                visible = conn.execute("SELECT count(*) FROM events WHERE bucketrow = (SELECT rowid FROM buckets WHERE id = 'B')").fetchone()[0]
+                obl.append(("rejected-bucket-operation-keeps-buffered-writes", visible == 1 + w0))
+        elif op in BUCKET_OPS:
             obl.append(("bucket-operation-durable-on-return", w1 == 0))
             obl.append(("operation-not-split-by-a-commit", not split))
         elif op in EVENT_READS:
@@ -142,7 +163,7 @@ def h_step(x, op, lazy=True, na=2):
                     obl.append(("recent-flush-low-counter-keeps-buffering", Implies(And(d1 + d2 < AGE_S * 10**6, n0 < LIMIT - 1), w1 == w0 + 1)))
             else:
                 obl.append(("eager-mode-durable-on-return", w1 == 0))
-            if op not in ("insert_many_new", "insert_many_upsert"):
+            if op not in ("insert_many_new", "insert_many_upsert", "insert_many_upsert_only"):
                 obl.append(("operation-not-split-by-a-commit", not split))
         return obl, obs
     finally:
@@ -168,7 +189,7 @@ def harnesses(tier, prop=PROP, fn=None):
     ST.install_sqlite()
     fn = fn or h_c06
     hs = []
-    ops = EVENT_WRITES + (EVENT_READS + BUCKET_OPS if prop == "C06" else [])
+    ops = EVENT_WRITES + (EVENT_READS + BUCKET_OPS + FAILING_BUCKET_OPS if prop == "C06" else [])
     for op in ops:
         hs.append((Harness(prop, "sqlite-lazy-%s" % op, fn, dict(op=op, lazy=True), "sqlite (lazy commit): %s from an arbitrary commit-machinery state (counter, buffered writes, age of last flush symbolic)" % op, split_depth=6), 1800))
     if prop == "C06":
